@@ -37,8 +37,16 @@ POOL_MODELLED = ("transport.go getConn/newPersistConn/run/CloseIdleConnections/C
                  "limit normalisation and Cursor() are translated from the source on every run (Generated/PoolFacts.lean); the Conn inside a pooled connection is abstracted to (dead, outstanding calls)")
 TB_POOL = TB_COMMON + ["the verif-tagged accessors in /repo/verif_hooks.go (housekeeping period, pool snapshot)", "real timers and sleeps in the correspondence phases"]
 
-PROPS = {
-    "C07": {
+ROUTE_RULE = ("scripted scenarios against the real *rpc.Client with an instrumented RoundTripper (records the address of every call, scripted per-address health and latency) and a fixed detection period: "
+              "Update sequences (duplicates, empty strings, removals while calls run), target up/down histories, Director results, 1..8 concurrent parked callers, Close and Fallback at scripted points, "
+              "all three policies, Alpha/Tick settings; the routing snapshot (verif accessor: list, heap, last, cursor, waiters, alive, latency) after every action is compared with the Lean automaton R "
+              "on detector-independent scenarios, and monitors check every recorded call against the target list in force; EWMA arithmetic cases against exact rationals; distinct = (policy, action sequence)")
+ROUTE_MODELLED = ("client.go Update/director/wait/schedule/detect/check/checkPending/Close/Fallback/target.Update/Alive/minHeap/heapDown are modelled as the automaton R (Model/Router.lean), one event per Client.lock critical section; "
+                  "cursor and heap index arithmetic and the per-form report facts are translated from the source on every run (Generated/RouteFacts.lean); the order in which concurrent check goroutines take the lock (hence the order of the live list) is an input of the model taken from the observation; "
+                  "the detector's timer, DialTimeout timers and float64 EWMA arithmetic are the runtime's: measured, not modelled")
+TB_ROUTE = TB_COMMON + ["the verif-tagged accessors in /repo/verif_hooks.go (routing snapshot, latency override, detector period constant)", "real timers in the scenarios that wait for the detector (monitor-only)"]
+
+PROPS = {    "C07": {
         "components": [{"name": "wire", "driver": "wire", "streams": ["c07"]}],
         "rule": "structure-aware header values (seq at every 7-bit boundary and 2^63/2^64-1; field lengths around 0,1,127/128,16383/16384,65535/65536,2097151/2097152; "
                 "scratch buffers of capacity 0,1,size-1,size,size+1,64K with dirty contents) through the real encoders/decoders and the Lean model; "
@@ -75,6 +83,12 @@ PROPS = {
             "rule": CONN_RULE + " | " + POOL_RULE + " | " + E2E_RULE + "; after teardown in either order: goroutine profile back to baseline, counting sockets all closed, Listen returned, second Close without panic",
             "trusted_base": TB_POOL, "modelled": CONN_MODELLED + " | " + POOL_MODELLED + " | goroutine exit, socket closure and Listen's return are runtime facts measured by the harness (goroutine profile, counting sockets), not modelled",
             "assumptions": ["'terminate' is a quiescence theorem (no model thread has work left) plus measured goroutine baselines with a 3 s deadline", "poll-mode Server.Close with an open connection: see known finding D17 (C10)"]},
+    "C16": {"components": [{"name": "router", "driver": "router", "streams": ["r"]}], "rule": ROUTE_RULE, "trusted_base": TB_ROUTE, "modelled": ROUTE_MODELLED,
+            "assumptions": ["'at the time of routing' = the Client.lock critical section in which director()/schedule() runs; a call routed before Update returns may still be in flight to a removed target afterwards (the property allows it)"]},
+    "C17": {"components": [{"name": "router", "driver": "router", "streams": ["r"]}], "rule": ROUTE_RULE, "trusted_base": TB_ROUTE, "modelled": ROUTE_MODELLED,
+            "assumptions": ["'stable set of live targets' = the live list does not change between the n picks", "the EWMA value is float64 arithmetic: compared with the documented formula to within 1 ns by the harness, not proved"]},
+    "C18": {"components": [{"name": "router", "driver": "router", "streams": ["r"]}], "rule": ROUTE_RULE, "trusted_base": TB_ROUTE, "modelled": ROUTE_MODELLED,
+            "assumptions": ["bounded detection time, 'as soon as' and 'at once' are measured against the detection period / deadlines by the harness, not proved", "caller ids (Client.seq) are distinct"]},
     "C04": {"components": [{"name": "server", "driver": "server", "streams": ["s"]}, {"name": "e2e", "driver": "e2e", "streams": ["e"]}],
             "rule": SRV_RULE + " | " + E2E_RULE, "trusted_base": TB_COMMON, "modelled": SRV_MODELLED + " | " + E2E_MODELLED,
             "assumptions": ["the peer uses each sequence number once per connection (guaranteed by the client half: K's pending-table invariant)", "Transport/Client never retry: checked by the end-to-end execution counts, not a theorem"]},
@@ -119,6 +133,18 @@ MANIFEST_TEXT = {
         "text": "Lean 4 theorems: after Conn.Close, in every quiescent state of K with no gate held, the reader has run its teardown, every queue and registry is empty and every call is completed; a second Close reports ErrShutdown and changes nothing; Transport.Close closes every pooled connection, empties the pool, stops housekeeping and is idempotent (over every event sequence of P); a server connection whose teardown is over has nothing left to dispatch and no handler running. The harness measures what the runtime owns: goroutine profile back to baseline, counting sockets closed, Listen returned, in both teardown orders.",
         "note": KERNEL_NOTE + "Goroutine exit and socket closure are measured, not proved. Poll-mode Server.Close with an open connection is known finding D17 (listed under C10).",
         "technique": "Lean 4 proof (quiescence + release theorems over K, P, S) + state correspondence + goroutine/socket baselines end to end"},
+    "C16": {
+        "text": "Lean 4 theorems over the routing automaton R (one event per Client.lock critical section; every history of Update, probes in any order, health reports, latencies, Director results, parked and concurrent callers, every policy): each routing decision hands the call to an address of the target map in force in that critical section or to the Director's address; Update installs exactly the distinct non-empty addresses given and clears list, heap and remembered set; live list and heap only ever hold current targets. R is compared with the real Client's routing snapshot after every action of scripted scenarios and every recorded call is checked against the list in force.",
+        "note": KERNEL_NOTE + "The order in which concurrent check goroutines take the lock is taken from the observation. Calls routed before Update returns may still be in flight (allowed by the property).",
+        "technique": "Lean 4 proof (routing invariant by induction over all event sequences) + translated cursor/heap arithmetic + state correspondence + per-call address monitor"},
+    "C17": {
+        "text": "Lean 4 theorems over R: with n >= 2 live targets the next n round-robin picks are pairwise distinct and cover the live list (from every reachable cursor position); Random picks a live target for every value of the random source; a non-probe LeastTime pick is the heap root after heapify and its estimate is minimal among all live targets (sift-down correctness over the translated index arithmetic); probes are rotation picks taken only when due and clear the due flag, so at most one per Tick; a dial failure resets the estimate to the maximum. EWMA values are compared with the documented formula over exact rationals on 4000 cases per run.",
+        "note": KERNEL_NOTE + "float64 EWMA arithmetic is measured, not proved; 'stable set' = the live list does not change between the picks.",
+        "technique": "Lean 4 proof (rotation, heap minimality, probe discipline) + state correspondence + EWMA differential + per-call address monitors with scripted latencies"},
+    "C18": {
+        "text": "Lean 4 theorems over R: parked callers and released callers are disjoint and nobody is parked after Close (invariant over every event sequence); the detector's release empties the waiter table in one critical section as soon as a target is live and no Fallback is in force; Close releases every waiter, afterwards routing answers ErrShutdown without waiting, a late parker is released at once and a second Close is a no-op; a parked caller's timeout step is always enabled; a dial failure marks the target dead and every call form reports (facts read from client.go). The harness measures detection time, wake-up latency, DialTimeout and the error values of all five call forms under scripted up/down histories.",
+        "note": KERNEL_NOTE + "Timers are the runtime's: bounded detection time and 'at once' are measured against deadlines.",
+        "technique": "Lean 4 proof (waiter invariant, release/close step theorems) + state correspondence + timed monitors for failover, wake-up, timeout and close"},
     "C04": {
         "text": "Lean 4 theorems over the server-connection automaton S (every interleaving of reader, decode worker, execution workers, handlers, teardown; every request mix incl. all 256 upgrade bytes and junk; every disconnect point): no request is executed or answered twice, no handler or response is phantom, and at the end of the connection every request read was executed exactly once if it had to be and answered exactly once. S is compared state-by-state with the real ServeCodec under scripted schedules; end-to-end runs count executions per call across all configurations and through Transport and Client.",
         "note": KERNEL_NOTE + "Unique sequence numbers per connection are assumed of the peer (the client half proves it of the library's own client). 'Never retries' for Transport/Client is measured end to end.",
